@@ -49,4 +49,15 @@ def toSet (G : Gr) (b : Nat) : Nat → List Bool
 def bfsDist (G : Gr) (a b : Nat) : Option Nat :=
   (List.range (G.n + 1)).find? fun k => (toSet G b k).getD a false
 
+/-- all breadth-first distances, materialised once -/
+def bfsTable (G : Gr) : List (List (Option Nat)) :=
+  (List.range G.n).map fun a => (List.range G.n).map fun b => bfsDist G a b
+
+/-- the graph with its own breadth-first distances installed as `dist` (round 4: this is what
+the driver evaluates the definition on, and `bfs_distances_are_shortest_paths` proves that it
+is the shortest-path length, so `nsi_betweenness_split_bfs` needs no distance hypothesis) -/
+def withBfs (G : Gr) : Gr :=
+  let tab := bfsTable G
+  { G with dist := fun a b => (tab.getD a []).getD b none }
+
 end Pyunicorn.Nsi
